@@ -3,7 +3,7 @@ PROPERTY = "C07"
 META = {
     "category": "proof",
     "technique": "contract-based deductive verification of _toposort in both modes: the DFS (loop invariants with a ghost position map) and the cycle-reconstruction block (ghost pusher/expansion indices of the DFS stack, priorities = depth of the deepest popped copy, greedy walk invariant), z3; exhaustive bounded native runs over all small digraphs and several hash seeds for termination",
-    "text": "Proof for every graph (any size, any set iteration order): (1) a normal return of _toposort/toposort is a duplicate-free list of graph keys that contains every start key, is closed under dependencies and places every key after all of its dependencies — hence (meta-argument) a normal return implies acyclicity, i.e. a cycle can only end in the raise; (2) with returncycle=True (getcycle/isdag): an empty answer comes with a ranking of all reached keys that puts every key after its dependencies (so no cycle is reachable), a non-empty answer c satisfies c[0] == c[-1], every c[i+1] is a dependency of c[i], every c[i] lies in every dependency-closed set containing the start keys (reachability), and the greedy walk never runs out of candidates (no ValueError/KeyError/IndexError). Termination of the loops is bounded: every digraph with <= 4 nodes (self-loops included) x every start set x PYTHONHASHSEED 0..15, every 5-node digraph (<= 8 edges quick / all thorough), 2-5 s time-outs.",
+    "text": "Proof for every graph (any size, any set iteration order): (1) a normal return of _toposort/toposort is a duplicate-free list of graph keys that contains every start key, is closed under dependencies and places every key after all of its dependencies — hence (meta-argument) a normal return implies acyclicity, i.e. a cycle can only end in the raise; (2) with returncycle=True (getcycle/isdag): an empty answer comes with a ranking of all reached keys that puts every key after its dependencies (so no cycle is reachable), a non-empty answer c satisfies c[0] == c[-1], every c[i+1] is a dependency of c[i], every c[i] lies in every dependency-closed set containing the start keys (reachability), and the greedy walk never runs out of candidates (no ValueError/KeyError/IndexError). The pop loop and the greedy walk are proved to terminate (the walk strictly descends in priority). Termination of the DFS loops is bounded: every digraph with <= 4 nodes (self-loops included) x every start set x PYTHONHASHSEED 0..15, every 5-node digraph (<= 8 edges quick / all thorough), 2-5 s time-outs.",
     "note": "Trusted: VC generator, z3. Two contracts on the same source: for (1) the cycle block under `if nxt in seen:` is replaced mechanically by `raise RuntimeError`; for (2) the whole body is verified with returncycle=True (the string-formatting/raise tail is then infeasible). reverse_dict is verified too (its contract is what the cycle block uses). ASSUMED: DependenciesMapping is the dependency map of the graph; keys normalised to a list. Termination is not proved.",
     "design_ref": "DESIGN.md §5.4",
 }
@@ -21,4 +21,4 @@ def native(tier, seed):
 
 
 # thorough tier: deliberate edits that must turn an obligation red (applied to a scratch copy, never to /repo)
-MUTATIONS = [('contracts.coregraph', '_toposort[returncycle]', 'dask/core.py', '                        cycle.reverse()\n', '                        pass\n'), ('contracts.coregraph', '_toposort[returncycle]', 'dask/core.py', '                        while nodes[-1] != nxt:', '                        while nodes[-1] != prev:'), ('contracts.coregraph', '_toposort[returncycle]', 'dask/core.py', '                        cycle = [nodes.pop()]', '                        cycle = [prev]'), ('contracts.coregraph', 'reverse_dict', 'dask/core.py', '            _add(result[val], k)', '            _add(result[k], val)'), ('contracts.coregraph', '_toposort', 'dask/core.py', '                completed.add(cur)\n                seen.remove(cur)', '                seen.remove(cur)')]
+MUTATIONS = [('contracts.coregraph', '_toposort[returncycle]', 'dask/core.py', '                        cycle.reverse()\n', '                        pass\n'), ('contracts.coregraph', '_toposort[returncycle]', 'dask/core.py', '                        while nodes[-1] != nxt:', '                        while nodes[-1] != prev:'), ('contracts.coregraph', '_toposort[returncycle]', 'dask/core.py', '                        cycle = [nodes.pop()]', '                        cycle = [prev]'), ('contracts.coregraph', '_toposort[returncycle]', 'dask/core.py', '                            prev = min(deps, key=priorities.__getitem__)', '                            prev = max(deps, key=priorities.__getitem__)'), ('contracts.coregraph', 'reverse_dict', 'dask/core.py', '            _add(result[val], k)', '            _add(result[k], val)'), ('contracts.coregraph', '_toposort', 'dask/core.py', '                completed.add(cur)\n                seen.remove(cur)', '                seen.remove(cur)')]
